@@ -447,3 +447,46 @@ def der_whole_input(ctx):
             ctx.require(bool(junk_raise) and not ok_ret, q, 'on the pure-python path no raise depends on the bytes that follow the sequence', fn,
                         'bytes after the ASN.1 sequence are ignored')
     ctx.floor(n, 2, 'decoder paths')
+
+
+from . import c04 as _c04
+PROP.obligation('C13.residue-compare', canaries=[
+    mut.insert_before('keys', 'Key.public_uncompressed_hex', 'if self._y & 1 != sign:', "if pow(self._y, 2, secp256k1_p) != ys:\n    raise BKeyError('no point with this x coordinate')",
+                      'verification raises for the public keys with y = 1 or y = p - 1'),
+])(_c04.residue_compare)
+
+
+@PROP.obligation('C13.hashtype-byte-stripped', canaries=[
+    mut.replace_expr('keys', 'Signature.parse_bytes', 'convert_der_sig(signature[:-1], as_hex=False)',
+                     'convert_der_sig(signature[:-1] if signature[-1] & ~0x80 in [1, 2, 3] else signature, as_hex=False)', 'the last byte is only stripped when it is a defined hash type'),
+    mut.replace_expr('keys', 'Signature.parse_bytes', 'convert_der_sig(signature[:-1], as_hex=False)', 'convert_der_sig(signature[:-2], as_hex=False)', 'two bytes stripped'),
+])
+def hashtype_byte_stripped(ctx):
+    """A DER signature in a script is <DER(r, s)> <one hash-type byte>, for EVERY value of that byte (consensus accepts any byte outside
+    strict-encoding policy; the library's own signer emits whatever hash_type it is given). Signature.parse_bytes, evaluated on a DER
+    input of more than 64 bytes, hands convert_der_sig exactly signature[:-1] whatever the last byte is - a decoder that sees the
+    hash-type byte of 250 of the 256 values raises instead of giving the ECDSA verdict."""
+    q = 'keys:Signature.parse_bytes'
+    fn = ctx.repo.func(q)
+    SIG = ('var', 'signature')
+    seen = []
+
+    def h(it, a, kw, st, node):
+        seen.append((term(a[0]) if a else None, node))
+        return S(('var', 'rs'), 'bytes')
+
+    def decide(t):
+        if show(t) == '(len(signature) > 64)':
+            return True
+        return None
+    it = Interp(ctx.repo, 'keys', hooks={'convert_der_sig': h}, decide=decide)
+    try:
+        it.run_function(fn, {'signature': S(SIG, 'bytes'), 'public_key': None})
+    except AnalysisError as e:
+        ctx.undecided('Signature.parse_bytes not evaluable: %s' % str(e)[:100])
+    if not seen:
+        ctx.undecided('Signature.parse_bytes: convert_der_sig is not reached for a DER input of more than 64 bytes')
+    for arg, node in seen:
+        ctx.saw('DER input: convert_der_sig(%s)' % show(arg)[:80])
+        ctx.require(arg == ('slice', SIG, None, -1) or show(arg) == 'signature[:-1]', q, 'the DER decoder is given `%s`, expected signature[:-1] for every value of the last byte' % show(arg)[:90], node,
+                    'sign(z, k, hash_type=0x41).as_der_encoded() - and every signature whose last byte is not 01/02/03/81/82/83 - makes verify() raise instead of returning the ECDSA verdict')
